@@ -37,7 +37,7 @@ def main(argv):
         return runner.main(argv[1:])
     props = [prop]
     if prop == 'all':
-        props = ['C01', 'C02', 'C03', 'C04', 'C05', 'C06', 'C07', 'C08', 'C09', 'C10', 'C12', 'C13', 'C14', 'C15', 'C16',
+        props = ['C01', 'C02', 'C03', 'C04', 'C05', 'C06', 'C07', 'C08', 'C09', 'C10', 'C11', 'C12', 'C13', 'C14', 'C15', 'C16',
                  'C17', 'C18', 'C19', 'C20']
     rc = 0
     for p in props:
